@@ -2318,6 +2318,12 @@ impl Zeroconf {
                     }
                 }
             }
+
+            // Arm the timers of the probes that were created or started over
+            // since the last time (by a re-announcement or by the wake-ups above).
+            for timer in dns_registry.new_timers.drain(..) {
+                self.timers.push(Reverse(timer));
+            }
         }
 
         if !invalid_intf_addrs.is_empty() {
